@@ -43,7 +43,7 @@ PROPS = {
         'shrink': {},
         'assumptions': [
             "theorems cover route tables whose '**' segments are trailing (wf_table); other tables are covered by the correspondence stream only",
-            "sort_unstable_by + binary_search_by_key over unique keys = membership (std contract); HashMap<String,_> = finite map keyed by the exact method name",
+            "the literal fast path (sort_unstable_by + binary_search_by_key) is modelled explicitly in Model/BinSearch.v - core's binary search loop with fuel, sorting as 'any strictly sorted permutation' - and proved equal to the lookup the other theorems use (C11_binary_search_*); assumed: sort_unstable_by returns a sorted permutation, <[u8]>::cmp is the bytewise lexicographic order; HashMap<String,_> = finite map keyed by the exact method name",
             "route/path strings are &str in Rust, byte strings in the model; '/' is ASCII so splitting commutes with UTF-8",
         ],
     },
